@@ -55,7 +55,7 @@ func ZZ_C08_PolicyEveryDatagram() {
 // destination arrives: whichever entry is evicted - including the verdict of a
 // destination used before - later datagrams are still judged by the policy.
 //
-//verif:harness kind=api unwind=600 preempt=0 bound=cache-full(256),every-eviction-victim,3-datagrams-after-fill
+//verif:harness kind=api unwind=600 preempt=0 bound=cache-full(256),every-eviction-victim(first-overflow),4-datagrams-after-fill,3-destinations
 func ZZ_C08_PolicyCacheFull() {
 	io := &zzUDPIO{allow: map[string]bool{}}
 	io.allow["d0:53"] = true
@@ -69,16 +69,25 @@ func ZZ_C08_PolicyCacheFull() {
 		e.aclCache[k] = nil
 	}
 	c := io.conns[0]
-	// policy changes its mind about d0 only in the harness' bookkeeping: a stale
-	// cached "allow" must not outlive... no: the policy is fixed; what must hold is
-	// that d1 is judged by the policy and d0 stays deliverable.
+	io.allow["d2:53"] = verifBool("allow2")
+	// a new destination arrives at the full cache (any eviction victim) ...
 	m.feed(zzDgram(7, "d1:53", 1))
 	n := len(c.writes)
 	verifAssert((n == 2) == io.allow["d1:53"], "a new destination is judged by the policy even when the cache is full")
-	m.feed(zzDgram(7, "d0:53", 2))
-	verifAssert(len(c.writes) == n+1 && c.writes[n] == "d0:53", "an allowed destination stays deliverable after eviction")
-	m.feed(zzDgram(7, "d1:53", 3))
-	verifAssert((len(c.writes) == n+2) == io.allow["d1:53"], "and a rejected one stays rejected")
+	// ... and whatever the cache did about it (evict one, evict many), every later
+	// datagram is still judged by the policy
+	verifMapOrder(false)
+	for s := 0; s < 3; s++ {
+		d := zzDests[verifChoice("dest", len(zzDests))]
+		before := len(c.writes)
+		m.feed(zzDgram(7, d, byte(2+s)))
+		if len(c.writes) > before {
+			verifAssert(len(c.writes) == before+1 && c.writes[before] == d, "a datagram goes to the destination it names")
+			verifAssert(io.allow[d], "after the cache overflowed a datagram is still forwarded only to a destination the policy allows")
+		} else {
+			verifAssert(!io.allow[d], "an allowed destination stays deliverable after eviction")
+		}
+	}
 	verifAssert(len(e.aclCache) <= maxSessionACLCache, "the cache stays within its cap")
 	verifCover("evicted")
 }
